@@ -45,6 +45,8 @@ def test_x(seed, which, d=1):
 
 class ExactModel(gpytorch.models.ExactGP):
     def __init__(self, X, y, fam, seed=0, batch_shape=(), noise=None):
+        # own the library's random initialisations (LinearMean weights, IndexKernel factors, RFF weights, ...)
+        torch.manual_seed(util.seed_for(seed, "init|" + fam))
         d = X.shape[-1]
         bs = torch.Size(batch_shape)
         self.fam = fam
@@ -105,6 +107,7 @@ class ExactModel(gpytorch.models.ExactGP):
 
 class VarModel(gpytorch.models.ApproximateGP):
     def __init__(self, fam, seed=0, d=1, M=3):
+        torch.manual_seed(util.seed_for(seed, "init|" + fam))
         self.fam = fam
         g = util.gen(seed, "Zv")
         Z = util.rand(g, M, d)
